@@ -327,6 +327,68 @@ def adjacent_blocks(report, scen, rng):
         report.count("adjacent_block_filters")
 
 
+def validation_cases(report, drv, rng, n):
+    """the front end: what NostrQuery validation makes of the ids / authors / kinds a client sends (any spelling, duplicates,
+    over-long, too short, not hex, non-ASCII) vs Model/Validate.lean — the theorems of Props/C02Validate.lean (validated strings
+    of 64 digits decode to 32-byte strings in strictly descending order) are about that model — and, independently, the order
+    itself on the real output"""
+    from nostr_relay.storage.base import NostrQuery
+    from nostr_relay.storage import kv
+
+    def cps(x):
+        return [ord(c) for c in x]
+
+    def word(k):
+        r = rng.random()
+        base = rng.choice(gen.AUTHORS + [rng.randbytes(32).hex() for _ in range(2)])
+        if r < 0.35:
+            return "".join(c.upper() if rng.random() < 0.5 else c for c in base)
+        if r < 0.45:
+            return base + rng.choice(["0", "00", "ab", "F" * 10])
+        if r < 0.52:
+            return rng.choice([base[:-1], base[:62], "", "zz" * 32, base[:63] + "g", base[:63] + "\u0660", base[:63] + "\uff21", "\u212a" * 64])
+        return base
+    for _ in range(n):
+        field = rng.choice(["ids", "authors", "kinds"])
+        if field == "kinds":
+            raw = [rng.choice(gen.KINDS + [1, 1, 7, 7]) for _ in range(rng.randint(1, 6))]
+        else:
+            pool = [word(0) for _ in range(rng.randint(1, 4))]
+            raw = [rng.choice(pool) for _ in range(rng.randint(1, 6))]
+        try:
+            q = NostrQuery.model_validate({field: list(raw)})
+            got = getattr(q, field)
+        except Exception:
+            got = None
+        payload = {"case": "validation", "field": field, "values": raw}
+        if field == "kinds":
+            mv = drv.call({"op": "val.kinds", "values": raw})
+            if got != mv:
+                report.correspondence_break("base.NostrQuery (kinds)", payload, got, mv)
+            if got is not None and any(a <= b for a, b in zip(got, got[1:])):
+                report.property_failure("validated kinds are not strictly descending: %r" % (got,), payload, None)
+        else:
+            mv = drv.call({"op": "val.hex", "values": [cps(x) for x in raw]})
+            mine = None if mv is None else ["".join(chr(c) for c in h) for h in mv["validated"]]
+            if got != mine:
+                report.correspondence_break("base.NostrQuery (%s: ids_are_hex + sort_fields)" % field, payload, got, mine)
+            if got is not None:
+                dec = []
+                for h in got:
+                    try:
+                        dec.append(kv.bytes_from_hex(h))
+                    except ValueError:
+                        pass
+                if mv is not None and [d.hex() for d in dec] != mv["decoded"]:
+                    report.correspondence_break("kv.bytes_from_hex over validated %s" % field, payload, [d.hex() for d in dec], mv["decoded"])
+                if all(len(h) == 64 for h in got) and any(a <= b for a, b in zip(dec, dec[1:])):
+                    report.property_failure("the validated %s of a filter reach the LMDB scanner out of descending byte order: %r"
+                                            % (field, got), payload, None)
+        report.case(("validation", field, repr(raw)), nontrivial=got is not None and len(set(map(str, raw))) > 1,
+                    sample={"field": field, "values": [str(x)[:20] for x in raw], "accepted": got is not None})
+        report.count("validation_cases_" + field)
+
+
 def run(report, tier, seed):
     rng = random.Random(seed)
     drv = common.Driver()
@@ -355,6 +417,7 @@ def run(report, tier, seed):
             far_future(report, scen, rng)
         for i in range(10 if tier == "quick" else 150):
             adjacent_blocks(report, scen, rng)
+        validation_cases(report, drv, rng, 300 if tier == "quick" else 6000)
         if tier == "thorough":
             exhaustive(report, scen)
     finally:
